@@ -120,7 +120,11 @@ EntParamsValid(st, p) ==
   /\ Len(p.signers) >= 1
   /\ \A i \in DOMAIN p.signers : WellFormedAddr(st, p.signers[i])
   /\ Len(p.signers) >= p.min
-SetEntParams(st, p) == IF EntParamsValid(st, p) THEN Ok([st EXCEPT !.ent.p = p]) ELSE Fail(st)
+\* st.aux.exsig (observation variable): accounts that governance removed from the signer list
+SetEntParams(st, p) ==
+  IF EntParamsValid(st, p)
+  THEN Ok([st EXCEPT !.ent.p = p, !.aux.exsig = (@ \cup Range(st.ent.p.signers)) \ Range(p.signers)])
+  ELSE Fail(st)
 
 ------------------------------------------------------------------------------
 (* State predicates of the properties (C03, C04) *)
